@@ -121,4 +121,55 @@ theorem rFromParts_spec (n : ℤ) (d : ℕ) (hd : 0 < d) :
 theorem rFromParts_zero (n : ℤ) : rFromParts n 0 = .error .divideByZero := by
   simp [rFromParts]
 
+-- ------------------------------------------------------------------ powers (kernels at their contract)
+
+theorem upowK_eq (b n : ℕ) : upowK b n = b ^ n := by
+  unfold upowK
+  split
+  · next h => rw [h, pow_zero]
+  · next h =>
+    split
+    · next hb => rw [hb, zero_pow h]
+    · split
+      · next hb => rw [hb, one_pow]
+      · rfl
+
+theorem ipowK_eq (a : ℤ) (n : ℕ) : ipowK a n = a ^ n := by
+  unfold ipowK
+  rw [upowK_eq]
+  push_cast
+  split
+  · next h =>
+    have ho : Odd n := Nat.odd_iff.mpr h.2
+    rw [abs_of_neg h.1, ho.neg_pow, neg_neg]
+  · next h =>
+    by_cases ha : a < 0
+    · have he : Even n := by
+        rcases Nat.even_or_odd n with he | ho
+        · exact he
+        · exact absurd ⟨ha, Nat.odd_iff.mp ho⟩ h
+      rw [abs_of_neg ha, he.neg_pow]
+    · rw [abs_of_nonneg (not_lt.mp ha)]
+
+/-- `Repr::pow` is component-wise `^` -/
+theorem pow_def (x : Q) (n : ℕ) : pow x n = ⟨x.num ^ n, x.den ^ n⟩ := by
+  unfold pow; rw [ipowK_eq, upowK_eq]
+
+theorem Spec.qpow_eq (x : ℚ) (n : ℕ) : Spec.qpow x n = x ^ n := by
+  unfold Spec.qpow
+  split
+  · next h => rw [h, pow_zero]
+  · next h =>
+    split
+    · next hx => rw [hx, zero_pow h]
+    · split
+      · next hx => rw [hx, one_pow]
+      · split
+        · next hx =>
+          rw [hx]
+          split
+          · next he => rw [(Nat.even_iff.mpr he).neg_one_pow]
+          · next he => rw [(Nat.odd_iff.mpr (by omega)).neg_one_pow]
+        · rfl
+
 end Dashu.Model.Ratio
